@@ -92,7 +92,9 @@ def handleC13 (op : String) (args : Array Json) : Option Json := do
       ("is", Json.arr (sents.map fun s => Json.bool (match r with | some x => x.is s | none => false)).toArray),
       ("decision", strListJ (txDecision atom r))])
   | "hooks.visit" =>
-    -- ["hooks.visit", size, nbefore, nslots, adj, dedupe, roots, existing] -> log / ok / clean of Gorm.VGraph.run
+    -- ["hooks.visit", size, nbefore, nslots, adj, dedupe, roots, existing] -> log / ok / clean of Gorm.VGraph.run for
+    -- the repairs the tree under check carries (Gorm.genVisitFix, regenerated), plus `oldlog`/`oldclean`: the run of the
+    -- unrepaired traversal (all flags off) on the same graph
     let size ← jNat? (arg args 1)
     let nb ← jNat? (arg args 2)
     let ns ← jNat? (arg args 3)
@@ -101,8 +103,15 @@ def handleC13 (op : String) (args : Array Json) : Option Json := do
     let roots ← HC13.natList? (arg args 6)
     let existing ← HC13.natList? (arg args 7)
     let g : VGraph := { size := size, nbefore := nb, nslots := ns, adj := adj, dedupe := dd }
-    let r := g.run roots existing
-    some (Json.mkObj [("log", Json.arr (r.log.map HC13.vevJ).toArray), ("ok", Json.bool r.ok), ("clean", Json.bool r.clean)])
+    let r := g.run genVisitFix roots existing
+    let r0 := g.run {} roots existing
+    some (Json.mkObj [("log", Json.arr (r.log.map HC13.vevJ).toArray), ("ok", Json.bool r.ok), ("clean", Json.bool r.clean),
+      ("clean_mixed", Json.bool r.cleanMixed), ("clean_root", Json.bool r.cleanRoot), ("clean_dup", Json.bool r.cleanDup),
+      ("oldlog", Json.arr (r0.log.map HC13.vevJ).toArray), ("oldclean", Json.bool r0.clean)])
+  | "hooks.visitfix" =>
+    -- which of the repairs F27 / F28 / F29 the regenerated facts find in the tree under check
+    some (Json.mkObj [("filter", Json.bool genVisitFix.filter), ("root", Json.bool genVisitFix.root),
+      ("distinct", Json.bool genVisitFix.distinct)])
   | "hooks.batches" =>
     let n ← jNat? (arg args 1)
     let b ← jNat? (arg args 2)
